@@ -67,6 +67,8 @@ def run(ctx):
     # 3. seeded random histories
     nh, maxlen = (200, 200) if ctx.quick else (10000, 200)
     outs += run_parts(ctx, exe, [["c14", "rand", (nh + NCPU - 1) // NCPU, maxlen] for _ in range(NCPU)], "rand")
+    # 3b. one long history that grows a user array far beyond the built-in collection's own limit, then reads files into it
+    outs += run_parts(ctx, exe, [["c14", "grow", 640]], "grow")
     traces = []; nhist = 0; nev = 0; extra = []
     for i, (out, r) in enumerate(outs):
         if r.returncode != 0:
